@@ -69,7 +69,13 @@ fn single(idx: u64, rng: &mut Rng, mon: &mut Mon) {
         mon.count("near_pi_with_zero_previous");
     }
     let from_q = near_pi.is_some() || rng.bool(0.75);
-    let pose = if from_q { fr_to_iso(&fk(&rp, &q)) } else { gen_pose(rng, &rp, 1).iso };
+    // a fifth of the solvers sits behind a stack of Tool / Base / Frame wrappers: the contract is the outermost one's
+    let layers: Vec<crate::props::stack::Layer> = if rng.bool(0.2) { crate::props::stack::gen_stack(rng, 1 + rng.clone().usize(2), rng.clone().bool(0.5), &["Tool", "Base", "Frame"]) } else { vec![] };
+    let _ = rng.next_u64();
+    if !layers.is_empty() {
+        mon.count("solvers_behind_a_wrapper_stack");
+    }
+    let pose = if from_q { fr_to_iso(&crate::props::stack::ref_forward(&rp, &layers, &q)) } else { gen_pose(rng, &rp, 1).iso };
     // constraints
     let cons_mode = rng.usize(4);
     let cons = if cons_mode == 0 {
@@ -80,7 +86,8 @@ fn single(idx: u64, rng: &mut Rng, mon: &mut Mon) {
         for j in 0..6 {
             // classes whose centres stay inside the documented +-2pi range (with the sentinel the
             // centres play the role of the previous vector)
-            let cls = *rng.pick(&[1, 1, 5, 6, 2, 0]);
+            // (wrap-around ranges written with from > pi have their centre beyond 2pi, up to 3pi)
+            let cls = *rng.pick(&[1, 1, 5, 6, 2, 0, 3, 4]);
             let (f, t) = limit_pair(rng, cls, q[j]);
             from[j] = f;
             to[j] = t;
@@ -92,10 +99,13 @@ fn single(idx: u64, rng: &mut Rng, mon: &mut Mon) {
         };
         Some(if rng.bool(0.25) { via_update_range(rng, from, to, w) } else { Constraints::new(from, to, w) })
     };
-    let kin = match cons {
-        None => OPWKinematics::new(to_params(&rp)),
-        Some(c) => OPWKinematics::new_with_constraints(to_params(&rp), c),
-    };
+    let kin: std::sync::Arc<dyn Kinematics> = crate::props::stack::build(
+        match cons {
+            None => std::sync::Arc::new(OPWKinematics::new(to_params(&rp))),
+            Some(c) => std::sync::Arc::new(OPWKinematics::new_with_constraints(to_params(&rp), c)),
+        },
+        &layers,
+    );
     let w = cons.map(|c| c.sorting_weight).unwrap_or(0.0);
     let centres = cons.map(|c| c.centers).unwrap_or([0.0; 6]);
     // previous inside [-2pi,2pi]
@@ -131,11 +141,11 @@ fn single(idx: u64, rng: &mut Rng, mon: &mut Mon) {
 
     for e in [Entry::Continuing, Entry::Continuing5] {
         let detail = |what: &str, extra: serde_json::Value| {
-            json!({"robot": robot_json(&robot), "entry": e.name(), "q": jf(&q), "pose_from_q": from_q, "prev": jf(&prev), "weight": w,
+            json!({"robot": robot_json(&robot), "stack": crate::props::stack::stack_json(&layers), "entry": e.name(), "q": jf(&q), "pose_from_q": from_q, "prev": jf(&prev), "weight": w,
                    "limits": cons.map(|c| json!({"from": jf(&c.from), "to": jf(&c.to), "centers": jf(&c.centers)})), "clause": what, "extra": extra})
         };
-        let cell = format!("{}:{}", if rp.dof == 5 { "dof5" } else { "dof6" }, e.name());
-        let sols = match call(&kin, e, &pose, &prev, 0.0) {
+        let cell = format!("{}{}:{}", if layers.is_empty() { "" } else { "stack:" }, if rp.dof == 5 { "dof5" } else { "dof6" }, e.name());
+        let sols = match call(kin.as_ref(), e, &pose, &prev, 0.0) {
             Ok(s) => s,
             Err(m) => {
                 mon.violation(&format!("panic:{}", cell), "continuation entry point panicked", detail("no-panic", json!({"panic": m})));
